@@ -5,6 +5,7 @@ go 1.26.0
 require (
 	github.com/canopy-network/canopy v0.0.0
 	github.com/cockroachdb/pebble/v2 v2.1.6
+	github.com/drand/kyber v1.3.2
 	github.com/ethereum/go-ethereum v1.17.4
 	google.golang.org/protobuf v1.36.11
 )
@@ -28,7 +29,6 @@ require (
 	github.com/cockroachdb/tokenbucket v0.0.0-20250429170803-42689b6311bb // indirect
 	github.com/consensys/gnark-crypto v0.20.1 // indirect
 	github.com/crate-crypto/go-eth-kzg v1.5.0 // indirect
-	github.com/drand/kyber v1.3.2 // indirect
 	github.com/drand/kyber-bls12381 v0.3.4 // indirect
 	github.com/fatih/color v1.19.0 // indirect
 	github.com/getsentry/sentry-go v0.47.0 // indirect
